@@ -100,22 +100,27 @@ class Simulation:
         if len(self.raw_args) > 0:
             return self.raw_args
 
-        # Compute new otherwise
-        for res, p in zip(self.raw_variables, self.raw_parameters, strict=True):
-            self.model.update_parameters(p)
-            self.raw_args.append(
-                self.model.get_args_time_course(
-                    variables=res,
-                    include_variables=True,
-                    include_parameters=True,
-                    include_derived_parameters=True,
-                    include_derived_variables=True,
-                    include_reactions=True,
-                    include_surrogate_variables=True,
-                    include_surrogate_fluxes=True,
-                    include_readouts=True,
+        # Compute new otherwise. The model is shared with the caller, who may have
+        # changed its parameters since; leave them as they are found
+        current = self.model.get_parameter_values()
+        try:
+            for res, p in zip(self.raw_variables, self.raw_parameters, strict=True):
+                self.model.update_parameters(p)
+                self.raw_args.append(
+                    self.model.get_args_time_course(
+                        variables=res,
+                        include_variables=True,
+                        include_parameters=True,
+                        include_derived_parameters=True,
+                        include_derived_variables=True,
+                        include_reactions=True,
+                        include_surrogate_variables=True,
+                        include_surrogate_fluxes=True,
+                        include_readouts=True,
+                    )
                 )
-            )
+        finally:
+            self.model.update_parameters(current)
         return self.raw_args
 
     def _select_data(
@@ -422,13 +427,18 @@ class Simulation:
     ) -> pd.DataFrame | list[pd.DataFrame]:
         """Get right hand side over time."""
         args_by_simulation = self._compute_args()
-        return self._adjust_data(
-            [
+        current = self.model.get_parameter_values()
+        try:
+            rhs = [
                 self.model.update_parameters(p).get_right_hand_side_time_course(
                     args=args
                 )
                 for args, p in zip(args_by_simulation, self.raw_parameters, strict=True)
-            ],
+            ]
+        finally:
+            self.model.update_parameters(current)
+        return self._adjust_data(
+            rhs,
             normalise=normalise,
             concatenated=concatenated,
         )
@@ -472,6 +482,7 @@ class Simulation:
         concatenated: bool = True,
     ) -> pd.DataFrame | list[pd.DataFrame]:
         """Get fluxes of variable with positive stoichiometry."""
+        current = self.model.get_parameter_values()
         self.model.update_parameters(self.raw_parameters[0])
         names = [
             k
@@ -498,7 +509,7 @@ class Simulation:
                     for k in names:
                         v.loc[time, k] *= stoichs[k]
 
-        self.model.update_parameters(self.raw_parameters[-1])
+        self.model.update_parameters(current)
         if concatenated:
             return pd.concat(fluxes, axis=0)
         return fluxes
@@ -542,6 +553,7 @@ class Simulation:
         concatenated: bool = True,
     ) -> pd.DataFrame | list[pd.DataFrame]:
         """Get fluxes of variable with negative stoichiometry."""
+        current = self.model.get_parameter_values()
         self.model.update_parameters(self.raw_parameters[0])
         names = [
             k
@@ -568,7 +580,7 @@ class Simulation:
                     for k in names:
                         v.loc[time, k] *= -stoichs[k]
 
-        self.model.update_parameters(self.raw_parameters[-1])
+        self.model.update_parameters(current)
         if concatenated:
             return pd.concat(fluxes, axis=0)
         return fluxes
